@@ -859,5 +859,7 @@ func TestVerifC19(t *testing.T) {
 		stream.Emit("goconst "+k, fmt.Sprint(gc[k]))
 		stats.Inc("goconst")
 	}
+	// ---- part 2 (c19b_test.go): helper constructors, conn_state key lifecycle, routing-result lookups, match_set images
+	c19Extra(t, r, stats, stream, flows, real, e, scale)
 	stats.Write("c19go_" + variant)
 }
